@@ -6,13 +6,13 @@ Import ListNotations.
 From PT Require Import Model.TableMem.
 Open Scope Z_scope.
 
-Inductive act := AReady | APay | APass | AFold | ACheck | ACall | AAllin | ABet | ARaise | AExtend.
+Inductive act := AReady | APay | APass | AFold | ACheck | ACall | AAllin | ABet | ARaise | AExtend | ALeave.
 Inductive hev := EReady | EAnte | EBlinds | ERoundStarted | ERoundClosed | EGameClosed | ENone | EOther.
 Inductive rnd := RPreflop | RFlop | RTurn | RRiver | RNoRound.
 
 Definition act_eqb (a b : act) : bool :=
   match a, b with
-  | AReady, AReady | APay, APay | APass, APass | AFold, AFold | ACheck, ACheck | ACall, ACall | AAllin, AAllin | ABet, ABet | ARaise, ARaise | AExtend, AExtend => true
+  | AReady, AReady | APay, APay | APass, APass | AFold, AFold | ACheck, ACheck | ACall, ACall | AAllin, AAllin | ABet, ABet | ARaise, ARaise | AExtend, AExtend | ALeave, ALeave => true
   | _, _ => false end.
 Definition hev_eqb (a b : hev) : bool :=
   match a, b with
@@ -39,7 +39,7 @@ Record hsnap := {
   h_ante : Z; h_bd : Z; h_bsb : Z; h_bbb : Z
 }.
 
-Inductive why := WTurn | WOutOfTurn | WWrongKind | WNotDealtIn | WStranger | WNoHand | WGroup | WWithheld.
+Inductive why := WTurn | WOutOfTurn | WWrongKind | WNotDealtIn | WStranger | WNoHand | WGroup | WWithheld | WBystander | WParticipant.
 
 Record hcall := { hc_player : nat; hc_action : act; hc_chips : Z; hc_why : why; hc_fail : bool }.
 
@@ -57,7 +57,8 @@ Record hstep := {
 
 (* steps that are a player's game action (not a deadline extension, not a withheld answer) *)
 Definition is_action_step (s : hstep) : bool :=
-  negb (act_eqb (hc_action (st_call s)) AExtend) && match hc_why (st_call s) with WWithheld => false | _ => true end.
+  negb (act_eqb (hc_action (st_call s)) AExtend) && negb (act_eqb (hc_action (st_call s)) ALeave)
+  && match hc_why (st_call s) with WWithheld => false | _ => true end.
 
 Fixpoint index_of (id : nat) (i : nat) (es : list hentry) : option nat :=
   match es with [] => None | e :: t => if Nat.eqb (he_id e) id then Some i else index_of id (S i) t end.
@@ -130,7 +131,7 @@ Fixpoint c10_pays (i : nat) (l : list hstep) : option nat :=
   end.
 
 Definition be_kind_of (a : act) : nat :=
-  match a with APay => 5 | AFold => 6 | ACheck => 7 | ACall => 8 | AAllin => 9 | ABet => 10 | ARaise => 11 | APass => 12 | AReady | AExtend => 0 end.
+  match a with APay => 5 | AFold => 6 | ACheck => 7 | ACall => 8 | AAllin => 9 | ABet => 10 | ARaise => 11 | APass => 12 | AReady | AExtend | ALeave => 0 end.
 
 (* applied once: an accepted betting action is exactly one successful backend call of its kind *)
 Definition c10_once (s : hstep) : bool :=
@@ -140,6 +141,14 @@ Definition c10_once (s : hstep) : bool :=
 Definition C10_diag (s : hstep) : nat :=
   if negb (c10_refused s) then 1 else if negb (c10_accepted s) then 2 else if negb (c10_last s) then 3
   else if negb (c10_once s) then 5 else if negb (c10_event s) then 4 else if negb (c10_event_ready s) then 6 else 0.
+
+(* C02 (stability) / C10: the hand's entries denote the same players as long as the hand runs, whoever else comes or goes *)
+Definition same_hand (a b : hsnap) : bool := negb (Nat.eqb (h_gid a) 0) && Nat.eqb (h_gid a) (h_gid b).
+Fixpoint ids_eqb (a b : list hentry) : bool :=
+  match a, b with [], [] => true | x :: a', y :: b' => Nat.eqb (he_id x) (he_id y) && ids_eqb a' b' | _, _ => false end.
+Definition entries_stable (s : hstep) : bool :=
+  (negb (same_hand (st_pre s) (st_post s)) || ids_eqb (h_entries (st_pre s)) (h_entries (st_post s)))
+  && (negb (same_hand (st_pre s) (st_quiet s)) || ids_eqb (h_entries (st_pre s)) (h_entries (st_quiet s))).
 
 (* ---------------- C13 ---------------- *)
 Definition unchanged (s : hstep) : bool :=
